@@ -328,4 +328,520 @@ theorem absE_absOp_doc {d : Doc} (hwf : d.WF) {o : ObjOp} {e : EOp} (ho : OpOK d
     · obtain ⟨nx, hnx⟩ := key_occ_in_table hwf h1 h2
       exact fresh_not_mem he.fresh hnx
 
+
+/-! ## B. applicability survives an operation of the other kind; the two kinds commute -/
+
+/-- an array of the document keeps its slots and size under an object operation -/
+theorem findArr_after_op {d : Doc} (hwf : d.WF) {o : ObjOp} (ho : OpOK d o) {q : Ts} {pn : DNode}
+    {sl : List (Ts × Ts)} {sz : Int} (hq : d.findArr q = some (pn, sl, sz)) :
+    ∃ pn', (applyOp d o).findArr q = some (pn', sl, sz) := by
+  obtain ⟨h1, h2⟩ := findArr_some_iff.mp hq
+  have harr : IsArr d q := by unfold IsArr; rw [hq]; rfl
+  have hne : q ≠ o.parent := fun e => obj_ne_arr (opOK_isObj ho) harr e.symm
+  obtain ⟨n', h3, h4⟩ := after_op_container hwf ho h1 hne (by rw [h2]; intro v; simp)
+  exact ⟨n', findArr_some_iff.mpr ⟨h3, h4.trans h2⟩⟩
+
+theorem isArr_after_op {d : Doc} (hwf : d.WF) {o : ObjOp} (ho : OpOK d o) {q : Ts} (hq : IsArr d q) :
+    IsArr (applyOp d o) q := by
+  obtain ⟨pn, sl, sz, hp⟩ := isArr_iff.mp hq
+  obtain ⟨pn', hp'⟩ := findArr_after_op hwf ho hp
+  exact isArr_iff.mpr ⟨pn', sl, sz, hp'⟩
+
+theorem slotIds_after_op {d : Doc} (hwf : d.WF) {o : ObjOp} (ho : OpOK d o) {q : Ts} (hq : IsArr d q) :
+    slotIds (applyOp d o) q = slotIds d q := by
+  obtain ⟨pn, sl, sz, hp⟩ := isArr_iff.mp hq
+  obtain ⟨pn', hp'⟩ := findArr_after_op hwf ho hp
+  unfold slotIds
+  rw [slotsOf_of_findArr hp, slotsOf_of_findArr hp']
+
+theorem fresh_after_op {d : Doc} (hwf : d.WF) {o : ObjOp} (ho : OpOK d o) {ns : List DNode} (hf : Fresh d ns)
+    (hd : ∀ c, c ∈ ids (nodesOf o) → c ∈ ids ns → False) : Fresh (applyOp d o) ns := by
+  intro c hc
+  cases hfd : (applyOp d o).find c with
+  | none => rfl
+  | some n =>
+    exfalso
+    rcases find_after_op hwf o ho c n hfd with ⟨n0, h0⟩ | h0
+    · rw [hf c hc] at h0; cases h0
+    · exact hd c h0 hc
+
+/-- an applicable array operation is still applicable after an object operation -/
+theorem eok_after_op {d : Doc} (hwf : d.WF) {o : ObjOp} {e : EOp} (ho : OpOK d o) (he : EOK d e)
+    (hd : ∀ c, c ∈ ids (nodesOf o) → c ∈ ids (nodesE e) → False) : EOK (applyOp d o) e := by
+  cases e with
+  | ins p an ts vs =>
+    obtain ⟨h1, h2, h3, h4, h5⟩ := he
+    refine ⟨isArr_after_op hwf ho h1, h2, fresh_after_op hwf ho h3 hd, ?_, ?_⟩
+    · rw [slotIds_after_op hwf ho h1]; exact h4
+    · rw [slotIds_after_op hwf ho h1]; exact h5
+  | del1 p tg t =>
+    obtain ⟨h1, h2⟩ := he
+    exact ⟨isArr_after_op hwf ho h1, by rw [slotIds_after_op hwf ho h1]; exact h2⟩
+  | upd1 p tg t v =>
+    obtain ⟨h1, h2, h3, h4⟩ := he
+    exact ⟨isArr_after_op hwf ho h1, h2, fresh_after_op hwf ho h3 hd,
+      by rw [slotIds_after_op hwf ho h1]; exact h4⟩
+
+/-- an applicable object operation is still applicable after an array operation -/
+theorem opOK_after_E {d : Doc} (hwf : d.WF) {o : ObjOp} {e : EOp} (he : EOK d e) (ho : OpOK d o)
+    (hd : ∀ c, c ∈ ids (nodesOf o) → c ∈ ids (nodesE e) → False) : OpOK (applyE d e) o := by
+  cases o with
+  | put p k v ts =>
+    obtain ⟨h1, h2, h3⟩ := ho
+    exact ⟨isObj_applyE hwf he h1, h2, fresh_applyE hwf he h3 (fun c h h' => hd c h' h)⟩
+  | del p k ts =>
+    have hk : HasKey d p k := ho
+    obtain ⟨n, m, s, c, hn, _, _⟩ := ho
+    have hq : p ∉ ids (nodesE e) := fresh_not_mem he.fresh hn
+    show HasKey (applyE d e) p k
+    rw [hasKey_iff] at hk ⊢
+    have e1 : keyOf' (applyE d e) p k = (abs (applyE d e)).key p k := rfl
+    rw [e1, abs_applyE hwf e he, absE_key e _ hq]
+    exact hk
+
+/-- **B.** an applicable object operation and an applicable elementary array operation with disjoint new
+    identifiers commute up to observational equivalence (`DC.Sim`) -/
+theorem oe_comm {d : Doc} (hwf : d.WF) {o : ObjOp} {e : EOp} (ho : OpOK d o) (he : EOK d e)
+    (hd : ∀ c, c ∈ ids (nodesOf o) → c ∈ ids (nodesE e) → False) :
+    Sim (applyE (applyOp d o) e) (applyOp (applyE d e) o) := by
+  unfold Sim
+  rw [abs_applyE (wf_op hwf o ho) e (eok_after_op hwf ho he hd), sim_op hwf o ho,
+    sim_op (wf_applyE hwf e he) o (opOK_after_E hwf he ho hd), abs_applyE hwf e he]
+  exact absE_absOp_doc hwf ho he hd
+
+/-! ## C. object operations respect `ASim` -/
+
+theorem ceq_setKey {A B : Abs} (h : CEq A B) (p : Ts) (k : String) (st : Option KeySt) (ds : Int) :
+    CEq (setKey A p k st ds) (setKey B p k st ds) :=
+  ⟨h.shape, h.dead, fun c k' => by simp only [setKey]; rw [h.key c k'],
+    fun c => by simp only [setKey]; rw [h.size c]⟩
+
+theorem ceq_absOp (o : ObjOp) {A B : Abs} (h : CEq A B) : CEq (absOp o A) (absOp o B) := by
+  have hu := ceq_union h (abs ⟨nodesOf o⟩)
+  unfold absOp aop applyStep
+  rw [hu.key o.parent o.key]
+  exact ceq_kill (ceq_setKey hu _ _ _ _) _
+
+theorem asim_congr_op {z z' : Doc} (hz : z.WF) (hz' : z'.WF) {o : ObjOp} (h1 : OpOK z o) (h2 : OpOK z' o)
+    (h : ASim z z') : ASim (applyOp z o) (applyOp z' o) := by
+  unfold ASim
+  rw [sim_op hz o h1, sim_op hz' o h2]
+  exact ceq_absOp o h
+
+/-! ## D. histories of object operations and ELEMENTARY array operations -/
+
+inductive XOp where
+  | o (x : ObjOp)
+  | e (x : EOp)
+
+def applyX (d : Doc) : XOp → Doc
+  | .o x => applyOp d x
+  | .e x => applyE d x
+def applyAllX (d : Doc) (l : List XOp) : Doc := l.foldl applyX d
+
+def xo (l : List XOp) : List ObjOp := l.filterMap (fun | .o x => some x | _ => none)
+def xe (l : List XOp) : List EOp := l.filterMap (fun | .e x => some x | _ => none)
+
+/-- the new identifiers of the two operations do not clash -/
+def Cross (x : ObjOp) (e : EOp) : Prop := ∀ c, c ∈ ids (nodesOf x) → c ∈ ids (nodesE e) → False
+
+/-- ready for the operations `l` in any order -/
+def GoodX (z : Doc) (l : List XOp) : Prop :=
+  Good z (xo l) ∧ GoodE z (xe l) ∧ ∀ x ∈ xo l, ∀ e ∈ xe l, Cross x e
+
+theorem xo_cons_o (x : ObjOp) (l : List XOp) : xo (.o x :: l) = x :: xo l := rfl
+theorem xo_cons_e (x : EOp) (l : List XOp) : xo (.e x :: l) = xo l := rfl
+theorem xe_cons_o (x : ObjOp) (l : List XOp) : xe (.o x :: l) = xe l := rfl
+theorem xe_cons_e (x : EOp) (l : List XOp) : xe (.e x :: l) = x :: xe l := rfl
+theorem xo_append (a b : List XOp) : xo (a ++ b) = xo a ++ xo b := by simp [xo, List.filterMap_append]
+theorem xe_append (a b : List XOp) : xe (a ++ b) = xe a ++ xe b := by simp [xe, List.filterMap_append]
+
+theorem goodX_perm {z : Doc} {l l' : List XOp} (hp : l.Perm l') (h : GoodX z l) : GoodX z l' := by
+  obtain ⟨h1, h2, h3⟩ := h
+  have po : (xo l).Perm (xo l') := hp.filterMap _
+  have pe : (xe l).Perm (xe l') := hp.filterMap _
+  exact ⟨good_perm po h1, goodE_perm pe h2,
+    fun x hx e he => h3 x (po.mem_iff.mpr hx) e (pe.mem_iff.mpr he)⟩
+
+theorem insOnE_isArr {z : Doc} {p : Ts} {e : EOp} (he : EOK z e) (hi : (insOnE p e).isSome) : IsArr z p := by
+  cases e with
+  | ins p' a ts vs =>
+    simp only [insOnE] at hi
+    by_cases e' : p' = p
+    · subst e'; exact he.isArr
+    · simp [e'] at hi
+  | del1 p' tg t => simp [insOnE] at hi
+  | upd1 p' tg t v => simp [insOnE] at hi
+
+theorem goodE_after_op {z : Doc} {o : ObjOp} {l : List EOp} (ho : OpOK z o) (h : GoodE z l)
+    (hc : ∀ e ∈ l, Cross o e) : GoodE (applyOp z o) l := by
+  obtain ⟨hwf, hok, hpw, hord⟩ := h
+  refine ⟨wf_op hwf o ho, fun e he => eok_after_op hwf ho (hok e he) (hc e he), hpw, ?_⟩
+  intro p ⟨e, he, hi⟩
+  obtain ⟨M0, hb, hcs⟩ := hord p ⟨e, he, hi⟩
+  refine ⟨M0, ?_, hcs⟩
+  rw [slotIds_after_op hwf ho (insOnE_isArr (hok e he) hi)]
+  exact hb
+
+theorem good_after_E {z : Doc} {e : EOp} {l : List ObjOp} (he : EOK z e) (h : Good z l)
+    (hc : ∀ o ∈ l, Cross o e) : Good (applyE z e) l := by
+  obtain ⟨hwf, hok, hpw⟩ := h
+  exact ⟨wf_applyE hwf e he, fun o ho => opOK_after_E hwf he (hok o ho) (hc o ho), hpw⟩
+
+theorem goodX_step {z : Doc} {x : XOp} {l : List XOp} (h : GoodX z (x :: l)) : GoodX (applyX z x) l := by
+  obtain ⟨h1, h2, h3⟩ := h
+  cases x with
+  | o a =>
+    rw [xo_cons_o] at h1 h3
+    rw [xe_cons_o] at h2 h3
+    have ha : OpOK z a := h1.2.1 a (by simp)
+    refine ⟨good_step h1, goodE_after_op ha h2 (fun e he => h3 a (by simp) e he), ?_⟩
+    intro x hx e he
+    exact h3 x (List.mem_cons_of_mem _ hx) e he
+  | e a =>
+    rw [xo_cons_e] at h1 h3
+    rw [xe_cons_e] at h2 h3
+    have ha : EOK z a := h2.2.1 a (by simp)
+    refine ⟨good_after_E ha h1 (fun o ho => h3 o ho a (by simp)), goodE_step h2, ?_⟩
+    intro x hx e he
+    exact h3 x hx e (List.mem_cons_of_mem _ he)
+
+theorem goodX_wf {z : Doc} {l : List XOp} (h : GoodX z l) : z.WF := h.1.1
+
+theorem asim_congr_X {z z' : Doc} {x : XOp} {l : List XOp} (h1 : GoodX z (x :: l)) (h2 : GoodX z' (x :: l))
+    (h : ASim z z') : ASim (applyX z x) (applyX z' x) := by
+  cases x with
+  | o a =>
+    have a1 : OpOK z a := h1.1.2.1 a (by simp [xo_cons_o])
+    have a2 : OpOK z' a := h2.1.2.1 a (by simp [xo_cons_o])
+    exact asim_congr_op (goodX_wf h1) (goodX_wf h2) a1 a2 h
+  | e a =>
+    have a1 : EOK z a := h1.2.1.2.1 a (by simp [xe_cons_e])
+    have a2 : EOK z' a := h2.2.1.2.1 a (by simp [xe_cons_e])
+    exact asim_congr (goodX_wf h1) (goodX_wf h2) a1 a2 h
+
+/-- two adjacent operations of a ready history commute up to `ASim`, whatever their kinds -/
+theorem comm_asim_X {z : Doc} {x y : XOp} {l : List XOp} (h : GoodX z (x :: y :: l)) :
+    ASim (applyX (applyX z x) y) (applyX (applyX z y) x) := by
+  obtain ⟨h1, h2, h3⟩ := h
+  have hwf := h1.1
+  cases x with
+  | o a =>
+    cases y with
+    | o b =>
+      rw [xo_cons_o, xo_cons_o] at h1
+      have hpw := List.pairwise_cons.mp h1.2.2
+      exact asim_of_sim (op_comm_partial hwf (h1.2.1 a (by simp)) (h1.2.1 b (by simp)) (hpw.1 b (by simp)))
+    | e b =>
+      rw [xo_cons_o, xo_cons_e] at h1 h3
+      rw [xe_cons_o, xe_cons_e] at h2 h3
+      exact asim_of_sim (oe_comm hwf (h1.2.1 a (by simp)) (h2.2.1 b (by simp)) (h3 a (by simp) b (by simp)))
+  | e a =>
+    cases y with
+    | o b =>
+      rw [xo_cons_e, xo_cons_o] at h1 h3
+      rw [xe_cons_e, xe_cons_o] at h2 h3
+      exact asim_symm
+        (asim_of_sim (oe_comm hwf (h1.2.1 b (by simp)) (h2.2.1 a (by simp)) (h3 b (by simp) a (by simp))))
+    | e b =>
+      rw [xe_cons_e, xe_cons_e] at h2
+      exact comm_asim h2
+
+theorem goodX_applyAll {l : List XOp} : ∀ {d : Doc}, GoodX d l → (applyAllX d l).WF := by
+  induction l with
+  | nil => intro d h; exact goodX_wf h
+  | cons x l ih => intro d h; exact ih (goodX_step h)
+
+theorem goodX_append {l1 : List XOp} : ∀ {z : Doc} {l2 : List XOp}, GoodX z (l1 ++ l2) →
+    GoodX (applyAllX z l1) l2 := by
+  induction l1 with
+  | nil => intro z l2 h; exact h
+  | cons x l ih => intro z l2 h; exact ih (goodX_step h)
+
+/-- **D.** two arrival orders of the same object operations and elementary array operations, from
+    `ASim`-equivalent documents ready for them, end in `ASim`-equivalent documents -/
+theorem x_converge {d d' : Doc} {l l' : List XOp} (hp : l.Perm l') (h : GoodX d l) (h' : GoodX d' l)
+    (hs : ASim d d') : ASim (applyAllX d l) (applyAllX d' l') :=
+  perm_fold_equiv applyX ASim asim_equivalence GoodX
+    (fun _ _ _ hp h => goodX_perm hp h) (fun _ _ _ h => goodX_step h)
+    (fun _ _ _ _ h1 h2 h => asim_congr_X h1 h2 h)
+    (fun _ _ _ _ h => comm_asim_X h)
+    l l' hp d d' h h' hs
+
+theorem viewOK_applyAllX {l : List XOp} : ∀ {d : Doc}, GoodX d l → ViewOK d → (∀ o ∈ xo l, OpKeysND o) →
+    (∀ e ∈ xe l, EKeysND e) → ViewOK (applyAllX d l) := by
+  induction l with
+  | nil => intro d _ hv _ _; exact hv
+  | cons x l ih =>
+    intro d h hv hko hke
+    cases x with
+    | o a =>
+      rw [xo_cons_o] at hko
+      rw [xe_cons_o] at hke
+      have ha : OpOK d a := h.1.2.1 a (by simp [xo_cons_o])
+      exact ih (goodX_step h) (viewOK_op (goodX_wf h) hv a ha (hko a (by simp)))
+        (fun o ho => hko o (List.mem_cons_of_mem _ ho)) hke
+    | e a =>
+      rw [xo_cons_e] at hko
+      rw [xe_cons_e] at hke
+      have ha : EOK d a := h.2.1.2.1 a (by simp [xe_cons_e])
+      exact ih (goodX_step h) (viewOK_applyE (goodX_wf h) hv a ha (hke a (by simp))) hko
+        (fun o ho => hke o (List.mem_cons_of_mem _ ho))
+
+
+/-! ## E. batches: a mixed history = the history of its object operations and single-target array operations -/
+
+def flatX : DOp → List XOp
+  | .o x => [.o x]
+  | .a x => (flat x).map .e
+
+theorem xo_map_e (l : List EOp) : xo (l.map XOp.e) = [] := by
+  induction l with
+  | nil => rfl
+  | cons x l ih => rw [List.map_cons, xo_cons_e, ih]
+
+theorem xe_map_e (l : List EOp) : xe (l.map XOp.e) = l := by
+  induction l with
+  | nil => rfl
+  | cons x l ih => rw [List.map_cons, xe_cons_e, ih]
+
+theorem objs_cons_o (x : ObjOp) (L : List DOp) : objs (.o x :: L) = x :: objs L := rfl
+theorem objs_cons_a (x : AOp) (L : List DOp) : objs (.a x :: L) = objs L := rfl
+theorem arrs_cons_o (x : ObjOp) (L : List DOp) : arrs (.o x :: L) = arrs L := rfl
+theorem arrs_cons_a (x : AOp) (L : List DOp) : arrs (.a x :: L) = x :: arrs L := rfl
+
+theorem xo_flat (L : List DOp) : xo (L.flatMap flatX) = objs L := by
+  induction L with
+  | nil => rfl
+  | cons op L ih =>
+    rw [List.flatMap_cons, xo_append, ih]
+    cases op with
+    | o x => rfl
+    | a x => simp only [flatX, xo_map_e, objs_cons_a, List.nil_append]
+
+theorem xe_flat (L : List DOp) : xe (L.flatMap flatX) = (arrs L).flatMap flat := by
+  induction L with
+  | nil => rfl
+  | cons op L ih =>
+    rw [List.flatMap_cons, xe_append, ih]
+    cases op with
+    | o x => rfl
+    | a x => simp only [flatX, xe_map_e, arrs_cons_a, List.flatMap_cons]
+
+theorem applyAllX_map_e (z : Doc) (l : List EOp) : applyAllX z (l.map XOp.e) = applyAllE z l := by
+  simp only [applyAllX, applyAllE, List.foldl_map]
+  rfl
+
+theorem applyAllX_append (z : Doc) (l1 l2 : List XOp) :
+    applyAllX z (l1 ++ l2) = applyAllX (applyAllX z l1) l2 := by
+  simp [applyAllX, List.foldl_append]
+
+theorem docEq_applyD {a b : Doc} (h : DocEq a b) : ∀ (op : DOp), DocEq (applyD a op) (applyD b op)
+  | .o x => docEq_applyOp h x
+  | .a x => docEq_applyA h x
+
+/-- an object operation keeps the identifiers of the table distinct (whether applicable or not) -/
+theorem nodup_applyOp {d : Doc} (h : (ids d.table).Nodup) : ∀ (o : ObjOp), (ids (applyOp d o).table).Nodup
+  | .put p k v ts => by
+    simp only [applyOp, Doc.putInObject]
+    cases d.findObj p with
+    | none => exact h
+    | some x =>
+      obtain ⟨pn, m, size⟩ := x
+      simp only
+      cases createNode p ts v with
+      | err c => exact h
+      | panic w => exact h
+      | ok y =>
+        obtain ⟨ns, newC, t'⟩ := y
+        simp only
+        have h1 := nodup_addAll ns h
+        cases alFind k m with
+        | none => exact nodup_set _ h1
+        | some oldC =>
+          simp only
+          by_cases hc : (((d.addAll ns).timeOf oldC).cmp newC == Ordering.lt) = true
+          · simp only [hc, if_true]
+            exact nodup_funeral _ _ (nodup_set _ h1)
+          · simp only [hc]
+            exact nodup_funeral _ _ h1
+  | .del p k ts => by
+    simp only [applyOp, Doc.deleteInObject]
+    cases d.findObj p with
+    | none => exact h
+    | some x =>
+      obtain ⟨pn, m, size⟩ := x
+      simp only
+      cases alFind k m with
+      | none => exact h
+      | some c =>
+        simp only [Bool.false_eq_true, if_false]
+        by_cases hc : ((d.timeOf c).cmp ts == Ordering.lt) = true
+        · simp only [hc, if_true]
+          exact nodup_makeTomb _ _ (nodup_set _ h)
+        · simp only [hc]
+          exact h
+
+theorem nodup_applyD {d : Doc} (h : (ids d.table).Nodup) : ∀ (op : DOp), (ids (applyD d op).table).Nodup
+  | .o x => nodup_applyOp h x
+  | .a x => nodup_applyA h x
+
+theorem nodup_applyAllD : ∀ (L : List DOp) {d : Doc}, (ids d.table).Nodup → (ids (applyAllD d L).table).Nodup
+  | [], _, h => h
+  | op :: L, _, h => nodup_applyAllD L (nodup_applyD h op)
+
+/-- one operation = the sequence of its elementary operations, up to `DocEq` -/
+theorem applyD_flat {z : Doc} {op : DOp} {rest : List XOp} (h : GoodX z (flatX op ++ rest))
+    (hb : ∀ x, op = .a x → BatchOK x) : DocEq (applyD z op) (applyAllX z (flatX op)) := by
+  cases op with
+  | o x => exact docEq_refl _
+  | a x =>
+    have hg : GoodE z (flat x ++ xe rest) := by
+      have := h.2.1
+      rw [xe_append] at this
+      simp only [flatX, xe_map_e] at this
+      exact this
+    simp only [flatX, applyAllX_map_e, applyD]
+    exact applyA_flat hg (hb x rfl)
+
+theorem mem_arrs_cons {o : AOp} {op : DOp} {L : List DOp} (h : o ∈ arrs L) : o ∈ arrs (op :: L) := by
+  cases op with
+  | o x => exact h
+  | a x => rw [arrs_cons_a]; exact List.mem_cons_of_mem _ h
+
+/-- a mixed history = the history of its elementary operations, up to `DocEq` -/
+theorem applyAllD_flat : ∀ (L : List DOp) {z z' : Doc}, DocEq z z' → GoodX z' (L.flatMap flatX) →
+    (∀ op ∈ arrs L, BatchOK op) → DocEq (applyAllD z L) (applyAllX z' (L.flatMap flatX))
+  | [], _, _, h, _, _ => h
+  | op :: L, z, z', h, hg, hb => by
+      have e1 : applyAllD z (op :: L) = applyAllD (applyD z op) L := rfl
+      have e2 : (op :: L).flatMap flatX = flatX op ++ L.flatMap flatX := by simp
+      rw [e1, e2, applyAllX_append]
+      rw [e2] at hg
+      apply applyAllD_flat L _ (goodX_append hg) (fun o ho => hb o (mem_arrs_cons ho))
+      refine docEq_trans (docEq_applyD h op) (applyD_flat hg ?_)
+      intro x hx
+      subst hx
+      exact hb x (by rw [arrs_cons_a]; exact List.mem_cons_self)
+
+theorem goodX_of_goodD {d : Doc} {L : List DOp} (h : GoodD d L) : GoodX d (L.flatMap flatX) := by
+  obtain ⟨h1, h2, _, h4⟩ := h
+  refine ⟨by rw [xo_flat]; exact h1, by rw [xe_flat]; exact h2, ?_⟩
+  rw [xo_flat, xe_flat]
+  intro x hx e he
+  exact (h4 x hx e he).1
+
+theorem goodD_perm {d : Doc} {L L' : List DOp} (hp : L.Perm L') (h : GoodD d L) : GoodD d L' := by
+  obtain ⟨h1, h2, h3, h4⟩ := h
+  have po : (objs L).Perm (objs L') := hp.filterMap _
+  have pa : (arrs L).Perm (arrs L') := hp.filterMap _
+  have pf : ((arrs L).flatMap flat).Perm ((arrs L').flatMap flat) := pa.flatMap_right flat
+  exact ⟨good_perm po h1, goodE_perm pf h2, fun op ho => h3 op (pa.mem_iff.mpr ho),
+    fun x hx e he => h4 x (po.mem_iff.mpr hx) e (pf.mem_iff.mpr he)⟩
+
+/-- **C01/C02 for documents, mixed histories.**  Two arrival orders of the same remote document operations —
+    object puts / removes and array inserts / deletes / updates (multi-target, nested values) — that are
+    applicable in the start document in any order end in `ASim`-equivalent documents and, for values without
+    duplicate keys in a document fit for viewing, show the same key-sorted view. -/
+theorem mixed_converge {d : Doc} {L L' : List DOp} (hp : L.Perm L') (h : GoodD d L) :
+    ASim (applyAllD d L) (applyAllD d L') ∧
+      (ViewOK d → (∀ x ∈ objs L, OpKeysND x) → (∀ e ∈ (arrs L).flatMap flat, EKeysND e) →
+        (applyAllD d L).view.canon = (applyAllD d L').view.canon) := by
+  have h' : GoodD d L' := goodD_perm hp h
+  have hpf : (L.flatMap flatX).Perm (L'.flatMap flatX) := hp.flatMap_right flatX
+  have g := goodX_of_goodD h
+  have g' := goodX_of_goodD h'
+  have e1 := applyAllD_flat L (docEq_refl d) g h.2.2.1
+  have e2 := applyAllD_flat L' (docEq_refl d) g' h'.2.2.1
+  have hx : ASim (applyAllX d (L.flatMap flatX)) (applyAllX d (L'.flatMap flatX)) :=
+    x_converge hpf g g (asim_refl d)
+  constructor
+  · exact asim_trans (asim_of_docEq e1) (asim_trans hx (asim_symm (asim_of_docEq e2)))
+  · intro hv hko hke
+    have hwf : d.WF := h.1.1
+    have n1 := nodup_applyAllD L hwf.nodup
+    have n2 := nodup_applyAllD L' hwf.nodup
+    rw [docEq_view e1 n1 (goodX_applyAll g).nodup, docEq_view e2 n2 (goodX_applyAll g').nodup]
+    have hko1 : ∀ o ∈ xo (L.flatMap flatX), OpKeysND o := by rw [xo_flat]; exact hko
+    have hke1 : ∀ e ∈ xe (L.flatMap flatX), EKeysND e := by rw [xe_flat]; exact hke
+    have hko2 : ∀ o ∈ xo (L'.flatMap flatX), OpKeysND o := by
+      rw [xo_flat]
+      intro o ho
+      exact hko o ((hp.filterMap _).mem_iff.mpr ho)
+    have hke2 : ∀ e ∈ xe (L'.flatMap flatX), EKeysND e := by
+      rw [xe_flat]
+      intro e he
+      have pa : (arrs L).Perm (arrs L') := hp.filterMap _
+      exact hke e ((pa.flatMap_right flat).mem_iff.mpr he)
+    have v1 := viewOK_applyAllX g hv hko1 hke1
+    have v2 := viewOK_applyAllX g' hv hko2 hke2
+    exact asim_view_canon hx (goodX_applyAll g) v1.keys v2.keys v1.bounded v2.bounded v1.root
+
+
+/-! ## F. non-vacuity: a document with an object and an array, a mixed history in two orders -/
+
+namespace Ex
+open DA.Ex
+
+def tF : Ts := ⟨0, 6, "f", 0⟩
+def tG : Ts := ⟨0, 7, "g", 0⟩
+def tH : Ts := ⟨0, 8, "h", 0⟩
+
+/-- `base` (of `DA.Ex`) is `{"a": [1, {"x": 5}, [7]]}`; `s1` is the object `{"x": 5}` inside the array.
+    The history: a nested batch insert and a concurrent insert at the same place, a put of a new key into the
+    inner object, a two-target update (which supersedes that object) and a two-target delete of the same
+    slots, a remove of the key `x` of the inner object, a put of a new key (a nested value) into the root. -/
+def L : List DOp :=
+  [.a (.ins arr s0 tB [.arr [.num 1, .num 2], .str "z"]), .o (.put s1 "y" (.num 3) tF),
+   .a (.ins arr s0 tC [.num 99]), .a (.upd arr tD [s1, s2] [.num 10, .arr []]), .o (.del s1 "x" tG),
+   .a (.del arr [s1, s2] tE), .o (.put root "b" (.obj [("c", .arr [.num 5])]) tH)]
+def L' : List DOp := L.reverse
+
+theorem objs_L : objs L =
+    [.put s1 "y" (.num 3) tF, .del s1 "x" tG, .put root "b" (.obj [("c", .arr [.num 5])]) tH] := rfl
+theorem arrs_L : arrs L = DA.Ex.L := rfl
+theorem flat_L : DA.Ex.L.flatMap flat =
+    [i1, i2, .upd1 arr s1 tD (.num 10), .upd1 arr s2 ⟨0, 4, "d", 1⟩ (.arr []),
+      .del1 arr s1 tE, .del1 arr s2 ⟨0, 5, "e", 1⟩] := rfl
+
+theorem goodD : GoodD base L := by
+  refine ⟨?_, ?_, ?_, ?_⟩
+  · refine ⟨base_wf, ?_, by decide⟩
+    intro o ho
+    rw [objs_L] at ho
+    simp only [List.mem_cons, List.mem_nil_iff, or_false] at ho
+    rcases ho with rfl | rfl | rfl
+    · exact ⟨⟨_, _, _, rfl, rfl⟩, ⟨_, _, _, rfl⟩, DC.Ex.fresh_of_all (by decide)⟩
+    · exact ⟨_, _, _, _, rfl, rfl, rfl⟩
+    · exact ⟨⟨_, _, _, rfl, rfl⟩, ⟨_, _, _, rfl⟩, DC.Ex.fresh_of_all (by decide)⟩
+  · rw [arrs_L]; exact goodL
+  · rw [arrs_L]; decide
+  · rw [objs_L, arrs_L, flat_L]
+    decide
+
+example : L.Perm L' := (List.reverse_perm L).symm
+
+example : ASim (applyAllD base L) (applyAllD base L') :=
+  (mixed_converge (List.reverse_perm L).symm goodD).1
+
+example : (applyAllD base L).view.canon = (applyAllD base L').view.canon :=
+  (mixed_converge (List.reverse_perm L).symm goodD).2 base_viewOK
+    (by
+      intro x hx
+      rw [objs_L] at hx
+      simp only [List.mem_cons, List.mem_nil_iff, or_false] at hx
+      rcases hx with rfl | rfl | rfl <;> simp [OpKeysND, JKeysND, JKeysNDList, JKeysNDKvs])
+    (by
+      intro e he
+      rw [arrs_L, flat_L] at he
+      simp only [List.mem_cons, List.mem_nil_iff, or_false] at he
+      rcases he with rfl | rfl | rfl | rfl | rfl | rfl <;> simp [EKeysND, i1, i2, JKeysND, JKeysNDList])
+
+/-- … and what the two replicas show -/
+example : ((applyAllD base L).view ==
+    .obj [("a", .arr [.num 1, .num 99, .arr [.num 1, .num 2], .str "z"]), ("b", .obj [("c", .arr [.num 5])])]) = true ∧
+    ((applyAllD base L').view.canon == (applyAllD base L).view.canon) = true := by decide
+
+end Ex
+
 end Orda.DM
